@@ -765,6 +765,14 @@ func (en *Engine) load(st *State, addr Val, t types.Type) Val {
 		if m, isMap := ia.X.(*MapV); isMap {
 			return mkMapElem(m, ia.I, t)
 		}
+		// ... or of a slice made with the collection's length and filled by index, one element per iteration
+		if a, isA := ia.X.(*AllocV); isA && a.Comment == "makeslice" {
+			if c, has := st.heap["slicecomp:"+a.Key()]; has {
+				if m, isMap := c.val.(*MapV); isMap {
+					return mkMapElem(m, ia.I, t)
+				}
+			}
+		}
 		if v, ok := en.appendElem(st, ia.X, ia.I); ok {
 			return v
 		}
